@@ -14,11 +14,16 @@ histories for a failing input and reports the violation either way).
 namespace SaoVerif
 
 theorem C15_decision_skeleton_as_modelled :
-    Generated.Skel.x_node_keeper_reputation_go = Expected.Skel.x_node_keeper_reputation_go ∧
-    Generated.Skel.x_node_keeper_node_go = Expected.Skel.x_node_keeper_node_go ∧
-    Generated.Skel.x_sao_keeper_msg_server_store_go = Expected.Skel.x_sao_keeper_msg_server_store_go ∧
-    Generated.Skel.x_sao_keeper_timeout_management_go = Expected.Skel.x_sao_keeper_timeout_management_go ∧
-    Generated.Skel.x_sao_keeper_msg_server_migrate_go = Expected.Skel.x_sao_keeper_msg_server_migrate_go := by
+    [Generated.Skel.x_node_keeper_reputation_go,
+     Generated.Skel.x_node_keeper_node_go,
+     Generated.Skel.x_sao_keeper_msg_server_store_go,
+     Generated.Skel.x_sao_keeper_timeout_management_go,
+     Generated.Skel.x_sao_keeper_msg_server_migrate_go] =
+    [Expected.Skel.x_node_keeper_reputation_go,
+     Expected.Skel.x_node_keeper_node_go,
+     Expected.Skel.x_sao_keeper_msg_server_store_go,
+     Expected.Skel.x_sao_keeper_timeout_management_go,
+     Expected.Skel.x_sao_keeper_msg_server_migrate_go] := by
   decide +kernel
 
 end SaoVerif
